@@ -178,6 +178,18 @@ theorem C20_violated_modulePath_block_line :
       modulePath f8Input ≠ m.mod.path :=
   Proofs.ModfileWitness.modulePathDisagrees_spec (by decide +kernel)
 
+/-- A second input on which the same clause fails (found by the thorough-tier oracle, signature
+    `modulepath-module-block-header`): an EMPTY `module ( )` block defines no module, the strict parser
+    takes the later single-line directive, but the line scanner returns the `(` of the block header. -/
+def f8bInput : Bytes := B "module (\n)\nmodule example.com/m\n"
+
+theorem C20_violated_modulePath_module_block_header :
+    ∃ f m, parseToFile (B "go.mod") f8bInput none true = .ok f ∧ f.module = some m ∧
+      (f.syn.findLine m.lineId).map (·.inBlock) = some false ∧
+      Module.checkImportPath m.mod.path = .ok () ∧
+      modulePath f8bInput ≠ m.mod.path :=
+  Proofs.ModfileWitness.modulePathDisagrees_spec (by decide +kernel)
+
 /-- Non-vacuity of the agreement clause: on an ordinary file ModulePath and the strict parser agree. -/
 example :
     let x := B "// doc\nmodule \"example.com/m\" // c\n\ngo 1.21\n"
